@@ -3,6 +3,7 @@ package main
 import (
 	"fmt"
 	"go/types"
+	"os"
 	"sort"
 	"strings"
 
@@ -24,6 +25,10 @@ type harnessCtx struct {
 	target   *ssa.Function
 	modifies []modClause
 	holeDone bool
+	holeBlock *ssa.BasicBlock
+	holePC   *PC
+	resultVars map[string]bool // fresh leaves of the result of the applied contract
+	subst    map[string]*Term  // result leaves pinned by a postcondition
 	havocVars map[string]string // fresh value of a havoc'd field -> memory name
 	pats     []string
 	strict   bool
@@ -200,7 +205,18 @@ func (e *Engine) callStatic(fr *Frame, st *State, callee *ssa.Function, args []V
 			return r
 		case modeApply:
 			e.applyModifies(st, h)
-			return e.havocResults(st, callee.Signature, "ret."+harnessSuffix(callee))
+			h.holeBlock = site.Block()
+			h.holePC = st.pc
+			res := e.havocResults(st, callee.Signature, "ret."+harnessSuffix(callee))
+			h.resultVars = map[string]bool{}
+			for _, v := range res {
+				for _, t := range v.T {
+					if t.op == "var" {
+						h.resultVars[t.name] = true
+					}
+				}
+			}
+			return res
 		}
 	}
 	if ext := e.extern(fr, st, callee, args, site); ext != nil {
@@ -288,8 +304,30 @@ func (e *Engine) applyContract(fr *Frame, st *State, harness, target *ssa.Functi
 	nf.spec = true
 	nf.quiet = true
 	nf.prefix = fr.prefix
-	nf.hctx = &harnessCtx{mode: modeApply, caller: fr, site: site, target: target, name: harness.Name()}
-	return e.finishCall(fr, st, nf, args, site)
+	hc := &harnessCtx{mode: modeApply, caller: fr, site: site, target: target, name: harness.Name()}
+	nf.hctx = hc
+	vals := e.finishCall(fr, st, nf, args, site)
+	// results pinned by the postcondition (r.off == p.off, len(r) == 20+len(b), ...)
+	// are replaced by the pinning term, so that later address arithmetic is syntactic
+	if len(hc.subst) > 0 {
+		for i := range vals {
+			if vals[i].T == nil {
+				continue
+			}
+			nt := make([]*Term, len(vals[i].T))
+			for j, t := range vals[i].T {
+				for pass := 0; pass < 3; pass++ {
+					t = Subst(t, hc.subst)
+				}
+				nt[j] = t
+			}
+			rt := target.Signature.Results().At(i).Type()
+			nv := e.unflat(nt, rt)
+			nv.C = vals[i].C
+			vals[i] = nv
+		}
+	}
+	return vals
 }
 
 func (e *Engine) applyModifies(st *State, h *harnessCtx) {
@@ -391,7 +429,49 @@ func (e *Engine) intrinsic(fr *Frame, st *State, callee *ssa.Function, args []Va
 	case "vEnsures", "vAssert":
 		c := args[0].term()
 		if h != nil && h.mode == modeApply {
-			e.refineHavoc(st, h, c)
+			// pinning is only sound for postconditions stated on every path after the call
+			if h.holeBlock != nil && (postDominates(site.Block(), h.holeBlock) || pcBranchFree(st.pc, h.holePC)) {
+				e.refineHavoc(st, h, c)
+				if e.pinResults(h, c) {
+					// later harness code sees the pinned terms as well
+					for k, v := range fr.regs {
+						if len(v.T) == 0 {
+							continue
+						}
+						changed := false
+						nt := make([]*Term, len(v.T))
+						for j, t := range v.T {
+							nt[j] = Subst(t, h.subst)
+							if nt[j] != t {
+								changed = true
+							}
+						}
+						if changed {
+							nv := Value{T: nt, C: v.C}
+							if v.A != nil {
+								nv = e.unflat(nt, k.Type())
+							}
+							fr.regs[k] = nv
+						}
+					}
+					for ck, cv := range st.cells {
+						if ck.frame != fr.id {
+							continue
+						}
+						changed := false
+						nt := make([]*Term, len(cv))
+						for j, t := range cv {
+							nt[j] = Subst(t, h.subst)
+							if nt[j] != t {
+								changed = true
+							}
+						}
+						if changed {
+							st.cells[ck] = nt
+						}
+					}
+				}
+			}
 			st.assume(c)
 			return nil
 		}
@@ -1097,4 +1177,103 @@ func (e *Engine) refineHavoc(st *State, h *harnessCtx, c *Term) {
 			}
 		}
 	}
+}
+
+// pinResults records result leaves that a postcondition determines: v == t, or
+// a sum containing v once equal to a constant / another sum.
+func (e *Engine) pinResults(h *harnessCtx, c *Term) bool {
+	pinned := false
+	if os.Getenv("GOVC_DEBUG_PIN") != "" {
+		s := c.String()
+		if len(s) > 600 {
+			s = s[:600]
+		}
+		fmt.Printf("PINTRY %s: %s\n", h.name, s)
+	}
+	if len(h.resultVars) == 0 {
+		return false
+	}
+	var conj []*Term
+	if c.op == "and" {
+		conj = c.args
+	} else {
+		conj = []*Term{c}
+	}
+	for _, x := range conj {
+		if x.op != "=" || x.args[0].sort == BoolSort {
+			continue
+		}
+		for k := 0; k < 2; k++ {
+			l, r := x.args[k], x.args[1-k]
+			var v *Term
+			var rest []*Term
+			switch {
+			case l.op == "var" && h.resultVars[l.name]:
+				v = l
+			case l.op == "bvadd":
+				cnt := 0
+				for _, a := range l.args {
+					if a.op == "var" && h.resultVars[a.name] && v == nil {
+						v = a
+						cnt++
+					} else {
+						rest = append(rest, a)
+					}
+				}
+				if cnt != 1 {
+					v = nil
+				}
+			}
+			if v == nil {
+				continue
+			}
+			if h.subst == nil {
+				h.subst = map[string]*Term{}
+			}
+			if _, done := h.subst[v.name]; done {
+				continue
+			}
+			terms := []*Term{r}
+			for _, a := range rest {
+				terms = append(terms, BVNeg(a))
+			}
+			t := bvSum(v.sort, terms...)
+			if mentions(t, v.name) {
+				continue
+			}
+			h.subst[v.name] = t
+			pinned = true
+			if os.Getenv("GOVC_DEBUG_PIN") != "" {
+				fmt.Printf("PIN %s := %s\n", v.name, t)
+			}
+			break
+		}
+	}
+	return pinned
+}
+
+// postDominates: every path from block h to a return passes through b.
+func postDominates(b, h *ssa.BasicBlock) bool {
+	if b == h {
+		return true
+	}
+	seen := map[*ssa.BasicBlock]bool{b: true}
+	stack := []*ssa.BasicBlock{h}
+	for len(stack) > 0 {
+		x := stack[len(stack)-1]
+		stack = stack[:len(stack)-1]
+		if seen[x] {
+			continue
+		}
+		seen[x] = true
+		if len(x.Succs) == 0 {
+			// a return (or panic) reachable without passing b
+			if _, isRet := x.Instrs[len(x.Instrs)-1].(*ssa.Return); isRet {
+				return false
+			}
+			continue
+		}
+		stack = append(stack, x.Succs...)
+	}
+	return true
 }
